@@ -22,6 +22,8 @@ TRUSTED = [
     "float interface, binary32 kept rounded) + extract/zutil.ml",
     "drivers/C14.cpp; g++ 12 with ASan+UBSan as the observer of undefined behaviour inside the library",
     "float theorems hold for every float implementation satisfying the two stated hypotheses; not discharged for IEEE in Coq",
+    "the expression parser is outside the model (trees come from the OCaml parser); its two defects found by the tie are "
+    "fixes/C14-7 and the known finding parse_nested_ternary",
 ]
 
 META = dict(
@@ -676,7 +678,7 @@ def run(run, tier, seed, replay_case=None):
 
     rng = random.Random(seed * 7919 + 14)
     corpus = C.load_corpus(PROP)
-    n = 1500 if tier == "quick" else 60000
+    n = 1500 if tier == "quick" else 30000
     cases = list(corpus) + boundary_cases(tier) + gen_cases(rng, n, tier)
     if replay_case is not None:
         cases = [replay_case]
